@@ -72,7 +72,88 @@ def plan(tier, seed):
             if order <= 3:
                 for m in ("ref", "curved"):
                     cases.append(dict(key=f"lagrange{dim}o{order}n/{m}", kind=f"lagrange{dim}o{order}n", member=m, seed=seed, tier=tier, cost=order ** (2 * dim) / 4))
+    # histories on one long-lived region: (change the mesh points in place) x (refresh the region) sequences
+    for kind in ("quad", "hexahedron", "triangle", "tetra10", "quad9") + (("hexahedron20", "tetra", "quad8") if tier == "thorough" else ()):
+        cases.append(dict(key=f"history/{kind}", kind=kind, member="distorted", op="history", seed=seed, tier=tier, cost=8))
     return cases
+
+
+def run_history(case):
+    """every sequence (depth 2) over {affine map, rigid rotation, translation of the mesh points, applied in place} x
+    {reload(), reload(mesh), copy(), copy(mesh), mesh.update(points, callback=region.reload), reload(hess=True)}: after
+    each step the refreshed region must equal a region created from scratch on the current mesh"""
+    import itertools
+
+    import felupe as fem
+
+    kind, seed, key = case["kind"], case["seed"], case["key"]
+    viol, nontrivial = [], []
+    cnt = dict(trans=0, traces=0)
+    base = zoo.make(kind, "distorted", seed)
+    d = base.dim
+    A = np.eye(d) + 0.25 * zoo.offarr(seed, 77, (d, d))
+    Q = zoo.rot2(0.6) if d == 2 else zoo.generic_rotations(seed, 1)[0]
+    changes = [("affine", lambda P: P @ A.T + 0.1), ("rotate", lambda P: P @ Q.T), ("translate", lambda P: P + 0.35)]
+    refresh = ["reload()", "reload(mesh)", "copy()", "copy(mesh)", "update(callback=reload)", "reload(hess=True)", "points[:]=;reload()"]
+
+    def fresh(mesh, hess):
+        return zoo.region(kind, fem.Mesh(mesh.points.copy(), mesh.cells.copy(), mesh.cell_type), **(dict(hess=True) if hess else {}))
+
+    for seq in itertools.product(range(len(changes) * len(refresh)), repeat=2):
+        mesh = fem.Mesh(base.points.copy(), base.cells.copy(), base.cell_type)
+        region = zoo.region(kind, mesh)
+        lab = []
+        for k in seq:
+            (cn, cf), rf = changes[k // len(refresh)], refresh[k % len(refresh)]
+            lab.append(f"{cn}+{rf}")
+            newp = cf(mesh.points)
+            hess = False
+            if rf == "update(callback=reload)":
+                mesh.update(points=newp, callback=region.reload)
+                got = region
+            elif rf == "points[:]=;reload()":
+                mesh.points[:] = newp
+                region.reload()
+                got = region
+            else:
+                mesh.update(points=newp)
+                if rf == "reload()":
+                    region.reload()
+                    got = region
+                elif rf == "reload(mesh)":
+                    region.reload(mesh)
+                    got = region
+                elif rf == "copy()":
+                    got = region.copy()
+                    region = got
+                    mesh = region.mesh  # a copy owns a (deep) copy of its mesh: later changes go to that one
+                elif rf == "copy(mesh)":
+                    got = region.copy(mesh)
+                    region = got
+                elif hasattr(region.element, "hessian"):
+                    region.reload(hess=True)
+                    got, hess = region, True
+                else:
+                    region.reload(grad=True)
+                    got = region
+            cnt["trans"] += 1
+            ref = fresh(mesh, hess)
+            sub = "seq=" + " > ".join(lab)
+            ok = True
+            for name in ("dV", "dhdX", "h") + (("d2hdXdX",) if hess else ()):
+                a, b = np.asarray(getattr(got, name)), np.asarray(getattr(ref, name))
+                cnt["traces"] += 1
+                if a.shape != b.shape or np.abs(a - b).max() > 1e-12 * max(np.abs(b).max(), 1e-300):
+                    viol.append(dict(key=f"{key}/{sub}/{name}", what=f"region.{name} after changing the mesh points and refreshing the region differs from a region created on the current mesh", observed=float(np.abs(a - b).max()) if a.shape == b.shape else list(a.shape), expected=0, tol=1e-12))
+                    ok = False
+            if not ok:
+                break
+        else:
+            nontrivial.append(sub)
+        if len(viol) > 40:
+            break
+    return dict(viol=viol, states=len(nontrivial), transitions=cnt["trans"], traces=cnt["traces"], nontrivial=nontrivial, outcomes=[f"sequences={len(nontrivial)}"],
+                sample=dict(case=key, alphabet=len(changes) * len(refresh)), digest=f"{cnt['traces']}/{len(viol)}")
 
 
 def own_geometry(element, rpts, X, cells):
@@ -160,6 +241,8 @@ def get_mesh(case):
 def run(case):
     import felupe as fem
 
+    if case.get("op") == "history":
+        return run_history(case)
     kind, member, seed, tier = case["kind"], case["member"], case["seed"], case["tier"]
     key = case["key"]
     viol, nontrivial, outcomes = [], [], set()
